@@ -176,6 +176,14 @@ func (c *FnCtx) doCall(frame *Frame, st *State, in ssa.Instruction, call *ssa.Ca
 			}
 		}
 	}
+	// calls the function under verification must never make
+	if c.contract != nil && key != "" {
+		for _, fb := range c.contract.Forbids {
+			if fb == key || fb == shortKey(key) || strings.HasSuffix(shortKey(key), "."+fb) {
+				c.addOblig(st, "forbids:"+fb, "frame", "false", "the contract forbids a call of "+fb+" here", in.Pos())
+			}
+		}
+	}
 	// file-system frame of the function under verification
 	if c.contract != nil && c.contract.HasFSEffects && fsMutators[key] {
 		listed := false
